@@ -836,7 +836,7 @@ class Dict(dict, base.Symbolic, pg_typing.CustomTyping):
     # Keys are dict keys (not paths): 'x.y' addresses the key 'x.y'.
     self.rebind(
         {utils.KeyPath([k]): v for k, v in updates.items()},
-        raise_on_no_change=False, skip_notification=True)
+        raise_on_no_change=False)
 
   def sym_jsonify(
       self,
